@@ -11,3 +11,11 @@ tab = subprocess.check_output(["/venv/bin/python", os.path.join(HERE, "tools", "
 tab = "\n".join(l for l in tab.splitlines() if not l.startswith("WARNING"))
 open(p, "w").write(s[:a] + "\n" + tab + "\n" + s[b:])
 print("table rows:", tab.count("\n") - 1)
+s = open(p).read()
+if "<!-- BENIGN-TABLE-BEGIN -->" in s:
+    a = s.index("<!-- BENIGN-TABLE-BEGIN -->") + len("<!-- BENIGN-TABLE-BEGIN -->")
+    b = s.index("<!-- BENIGN-TABLE-END -->")
+    tab = subprocess.check_output(["/venv/bin/python", os.path.join(HERE, "tools", "benign_table.py")], text=True)
+    tab = "\n".join(l for l in tab.splitlines() if not l.startswith("WARNING"))
+    open(p, "w").write(s[:a] + "\n" + tab + "\n" + s[b:])
+    print("benign rows:", tab.count("\n") - 1)
